@@ -271,6 +271,19 @@ def _check_image(ctx, d, ds, fr, reqs, pending):
                             impl = ('err', _err_kind(val))
                     reqs.append((fn, args))
                     pending.append((case, impl))
+        # ---- spellings that are NOT integers (float, numeric string, None, numpy float): refused on every method, never
+        # truncated or parsed (a frame number 1.5 is not frame 1)
+        for bad, sp in ((1.0, 'float'), (1.5, 'float-fraction'), ('1', 'str'), (None, 'none'), (np.float64(1.0), 'numpy-float')):
+            for what, f in (('get_stored_frame', lambda: im.get_stored_frame(bad)),
+                            ('get_stored_frames', lambda: im.get_stored_frames([1, bad])),
+                            ('get_raw_frame', lambda: im.get_raw_frame(bad)),
+                            ('get_frame', lambda: im.get_frame(bad, dtype=np.int64, **_NO_TRANSFORMS)),
+                            ('get_frames', lambda: im.get_frames([bad], dtype=np.int64, **_NO_TRANSFORMS))):
+                stb, vb = _fetch(f)
+                ctx.case(path=name + '/non-integer-number', number_given_as=sp)
+                if stb == 'ok':
+                    ctx.fail({'image': d, 'path': name, 'call': what, 'number': repr(bad)},
+                             'a frame number that is not an integer was accepted', site=what + '/non-integer-number')
         # batch == singles (oracle)
         r = ctx.rng('batch', d['idx'])
         sel = [r.randrange(n) for _ in range(r.randint(1, 5))]
@@ -417,7 +430,9 @@ def _check_image(ctx, d, ds, fr, reqs, pending):
                                       ('get_stored_frame', lambda: im.get_stored_frame(1), ref2[0]),
                                       ('get_stored_frame', lambda: im.get_stored_frame(n), ref2[n - 1]),
                                       ('get_stored_frames', lambda: im.get_stored_frames(), ref2),
-                                      ('get_raw_frame+decode', lambda: im.get_stored_frames([n, 1]), ref2[[n - 1, 0]])):
+                                      ('get_raw_frame+decode', lambda: im.get_stored_frames([n, 1]), ref2[[n - 1, 0]]),
+                                      ('get_frame', lambda: im.get_frame(1, dtype=np.int64, **_NO_TRANSFORMS), ref2[0]),
+                                      ('get_frames', lambda: im.get_frames([n, 1], dtype=np.int64, **_NO_TRANSFORMS), ref2[[n - 1, 0]])):
                     st, val = _fetch(f)
                     ctx.case(path=name + '/pixel-data-replaced')
                     if st != 'ok' or not np.array_equal(np.asarray(val).astype(np.int64), want.astype(np.int64)):
@@ -441,6 +456,13 @@ def _check_image(ctx, d, ds, fr, reqs, pending):
                         ctx.fail(case, 'reader frame differs from pydicom', site='read_frame')
                 elif st2 == 'ok':
                     ctx.fail(case, 'reader accepted out-of-range index (wrapped?)', site='read_frame')
+            for bad in (0.0, 1.5, '0', None):
+                for what, f in (('read_frame', lambda: rd.read_frame(bad, correct_color=False)), ('read_frame_raw', lambda: rd.read_frame_raw(bad))):
+                    stb, vb = _fetch(f)
+                    ctx.case(path='reader/non-integer-index')
+                    if stb == 'ok':
+                        ctx.fail({'image': d, 'path': 'reader', 'call': what, 'index': repr(bad)},
+                                 'a frame index that is not an integer was accepted', site=what + '/non-integer-index')
             # any order, with repeats and refused requests in between: a read must not depend on the reads before it
             ro = ctx.rng('reader-order', d['idx'])
             order = [ro.randrange(-1, n + 1) for _ in range(min(2 * n + 2, 14))]
